@@ -13,6 +13,8 @@ Anim(frames, nunk) == [u1 |-> <<1,2,3,4>>, rect |-> [i \in 1..16 |-> i], disp |-
 V(np, imgs, anims) == [palettes |-> [k \in 1..np |-> Pal(k)], images |-> imgs, anims |-> anims, unknownCount |-> 77]
 Emit(id, steps) == PrintT("S|" \o ToJson([id |-> id, steps |-> steps]))
 RT(v, hdr) == [op |-> "prt_roundtrip", input |-> EncodeWith(v, hdr), canon |-> Encode(v), value |-> v]
+\* the reader refuses the encoding of a value that violates the image rules (palette index, scan-line width), and accepts the others
+ReadCase(v) == [op |-> "prt_read", input |-> Encode(v), expect |-> IF RulesHold(v) THEN "ok" ELSE "refuse"]
 WriteCase(v) == [op |-> "prt_write", value |-> v, expect |-> IF RulesHold(v) THEN "ok" ELSE "refuse", canon |-> IF RulesHold(v) THEN Encode(v) ELSE <<>>]
 FrameSets == << <<>>, << F(0,0,0,0) >>, << F(1,1,0,0), F(2,0,1,0) >>, << F(1,1,1,0), F(0,1,1,0) >>, << F(127,0,0,0) >> >>
 \* ---- seeded random PRT values that satisfy the cross-field rules: every byte of palettes, layers, unknown containers arbitrary;
@@ -35,6 +37,7 @@ RValue(r) == LET np == Below(RS(r), 1, 0, 3) IN
 Init == \/ fam = "rt" /\ par \in {<<np, ni, fs, na, nunk>> : np \in 0..2, ni \in 0..2, fs \in 1..Len(FrameSets), na \in 0..2, nunk \in 0..2} /\ (par[1] > 0 \/ par[2] = 0)
         \/ fam = "rand" /\ par \in {<<r>> : r \in 1..NRand}
         \/ fam = "bad-scan" /\ par = <<>>
+        \/ fam = "scan" /\ par \in {<<w, sc>> : w \in 0..13, sc \in 0..20} \cup {<<w, sc>> : w \in {32, 33, 252, 255, 256}, sc \in {28, 32, 36, 40, 252, 256, 260}}     \* the whole (width, scan-line) relation on a grid
         \/ fam = "bad-pal" /\ par \in {<<1>>, <<0>>}
         \/ fam = "bad-layers" /\ par \in {<<n, extra>> : n \in {0, 1, 2, 126, 127}, extra \in {1, 2, 128, 256, 512}}
 Next == UNCHANGED vars
@@ -43,15 +46,17 @@ Value == CASE fam = "rt" -> LET np == par[1]  ni == par[2]  fs == par[3]  na == 
                             V(np, [i \in 1..ni |-> Img(i * 3, TRUE, (i - 1) % np)], [a \in 1..na |-> Anim(FrameSets[((fs + a) % Len(FrameSets)) + 1], (nunk + a) % 3)])
            [] fam = "rand" -> RValue(par[1])
            [] fam = "bad-scan" -> V(1, << Img(5, FALSE, 0) >>, <<>>)
+           [] fam = "scan" -> V(1, << [Img(par[1], TRUE, 0) EXCEPT !.scan = par[2]] >>, <<>>)
            [] fam = "bad-pal" -> V(par[1], << Img(5, TRUE, par[1]) >>, <<>>)
            [] OTHER -> V(0, <<>>, << Anim(<< F(par[1], 0, 0, par[2]) >> , 0) >>)
 \* the good families satisfy the cross-field rules, the bad ones violate them (so that the writer's refusal is really exercised)
-RulesAsIntended == RulesHold(Value) <=> fam \in {"rt", "rand"}
+RulesAsIntended == RulesHold(Value) <=> (fam \in {"rt", "rand"} \/ (fam = "scan" /\ par[2] = RoundUp4(par[1])))
 \* the header totals equal the contents, and the encoding has the length the layout description implies
 TotalsMatch == LET e == Encode(Value) IN Len(e) >= 8 + 1048 * Len(Value.palettes) + 4 + 20 * Len(Value.images) + 16
 EncodingDeterminedByValue == Encode(Value) = EncodeWith(Value, PaletteHeaderCanon)
 NonCanonicalHeaderSameLength == Len(EncodeWith(Value, PaletteHeaderWith(6, 9, 1022))) = Len(Encode(Value))
 Export == CASE fam = "rt" -> Emit(<<"rt", par>>, << RT(Value, PaletteHeaderCanon), RT(Value, PaletteHeaderWith(6, 9, 1022)), WriteCase(Value) >>)
             [] fam = "rand" -> Emit(<<"rand", Seed, par>>, << RT(Value, PaletteHeaderCanon), WriteCase(Value) >>)
+            [] fam \in {"scan", "bad-scan", "bad-pal"} -> Emit(<<fam, par>>, << WriteCase(Value), ReadCase(Value) >>)
             [] OTHER -> Emit(<<fam, par>>, << WriteCase(Value) >>)
 ====
